@@ -186,7 +186,8 @@ Definition n_render_methods : nat := length (flat (map render_methods classes)).
 (* special names that copy.copy / copy.deepcopy / pickle look up on an instance (or on a blank
    instance made by __reduce_ex__) and that `object` does not already provide *)
 Definition probe_names : list str :=
-  [L "__copy__"; L "__deepcopy__"; L "__getstate__"; L "__setstate__"; L "__getnewargs__"].
+  [L "__copy__"; L "__deepcopy__"; L "__getstate__"; L "__setstate__"; L "__getnewargs__";
+   L "__slots__"].      (* copyreg._reduce_ex (pickle protocols 0 and 1) reads it from the INSTANCE *)
 Definition dyn_methods (c : classrec) : list methrec :=
   filter (fun m => seqb (m_name m) (L "__getattr__")) (c_methods c).
 Variable ignore_copy_names : list str.
